@@ -99,6 +99,11 @@ impl TrackerClient {
 
     fn create_url(metainfo: &Metainfo) -> String {
         let info_hash: String = form_urlencoded::byte_serialize(metainfo.info_hash()).collect();
-        metainfo.tracker_url().clone() + "?info_hash=" + info_hash.as_str()
+        // Announce URL may already carry query parameters
+        let separator = match metainfo.tracker_url().contains('?') {
+            true => "&info_hash=",
+            false => "?info_hash=",
+        };
+        metainfo.tracker_url().clone() + separator + info_hash.as_str()
     }
 }
